@@ -123,6 +123,7 @@ func classifyErr(err error) string {
 }
 
 func goCheck(api schemeAPI, hash, pw string, rnd uint32) string {
+	pendingOp(fmt.Sprintf("check %s %s %s", api.name, hx([]byte(hash)), hx([]byte(pw))))
 	return safely(func() string {
 		var err error
 		var rb [4]byte
@@ -339,10 +340,69 @@ func coherenceOps(c *Ctx) {
 	}
 }
 
+// inherentEquivalences (C02): password pairs that are NOT equivalent under the documented truncation rules as C02
+// words them, yet verify against each other's hashes because of how the ALGORITHM (not this library's glue) uses
+// its key — proved in Props/C02b.lean (desext_twin_checks, bcryptEquiv_coarser) and confirmed on libxcrypt. They are
+// replayed here on the real code and reported as known findings; anything else that verifies is a new violation.
+func inherentEquivalences(c *Ctx) {
+	// BSDi: the folded 64-bit key is used as a DES key, and DES ignores the low bit of every key byte: the
+	// 8 bytes "upper seven bits of each byte of the folded key" are a twin of every longer password
+	fold := func(pw []byte) uint64 {
+		mn := func(a, b int) int {
+			if a < b {
+				return a
+			}
+			return b
+		}
+		k := descrypt.Key(pw[:mn(len(pw), 8)])
+		for i := 8; i < len(pw); i += 8 {
+			k = descrypt.Encrypt(k, k, 0, 1) ^ descrypt.Key(pw[i:mn(i+8, len(pw))])
+		}
+		return k
+	}
+	for _, pw := range []string{"correct horse battery staple", "passwordpassword1", "0123456789abcdef0123"} {
+		k := fold([]byte(pw))
+		twin := make([]byte, 8)
+		for i := range twin {
+			twin[i] = 0x80 | byte(k>>(56-8*uint(i)))>>1 // bit 7 is masked off again by descrypt.Key; avoids NUL bytes
+		}
+		h, err := desext.NewHash(pw, 725)
+		if err != nil {
+			continue
+		}
+		c.Direct++
+		if r := classifyErr(desext.Check(h, string(twin))); r == "nil" {
+			c.Fail("wrong-password-accepted", fmt.Sprintf("desext.Check(hash of %q, % x) = nil: the 8-byte twin built from the folded key verifies", pw, twin),
+				map[string]string{"suite": "scheme", "scheme": "desext", "hash": hx([]byte(h)), "made-from": hx([]byte(pw)), "password": hx(twin), "class": "bsdi-folded-key-twin"})
+		}
+	}
+	// bcrypt: the Blowfish key schedule reads the key cyclically: "a" ≡ "a\x00a" under $2a$/$2b$ (key bytes a,NUL repeat),
+	// "ab" ≡ "abab" under $2$ (no terminator)
+	type pair struct{ prefix, a, b string }
+	for _, p := range []pair{{bcrypt.Prefix2b, "a", "a\x00a"}, {bcrypt.Prefix2a, "a", "a\x00a"}, {bcrypt.Prefix2, "ab", "abab"}} {
+		salt := []byte("R1lJ2gkNaoPGdafE.H.16.")
+		k, err := bcrypt.Key([]byte(p.a), salt, 4, &bcrypt.CompatibilityOptions{Prefix: p.prefix})
+		if err != nil {
+			continue
+		}
+		h := p.prefix + "04$" + string(salt) + bcrypt.Encoding.EncodeToString(k)[:31]
+		c.Direct++
+		if r := classifyErr(bcrypt.Check(h, p.a)); r != "nil" {
+			c.Fail("fresh-hash-rejected", "bcrypt.Check of a hash assembled from Key's own result = "+r, map[string]string{"suite": "scheme", "scheme": "bcrypt", "hash": hx([]byte(h)), "password": hx([]byte(p.a))})
+			continue
+		}
+		if r := classifyErr(bcrypt.Check(h, p.b)); r == "nil" {
+			c.Fail("wrong-password-accepted", fmt.Sprintf("bcrypt.Check(hash of %q under %s, %q) = nil: the key schedule reads the key bytes cyclically", p.a, p.prefix, p.b),
+				map[string]string{"suite": "scheme", "scheme": "bcrypt", "hash": hx([]byte(h)), "made-from": hx([]byte(p.a)), "password": hx([]byte(p.b)), "class": "bcrypt-cyclic-key"})
+		}
+	}
+}
+
 func suiteScheme(c *Ctx) {
 	if c.Scheme(0) { // scheme-independent part: first shard
 		desIntOps(c)
 		coherenceOps(c)
+		inherentEquivalences(c)
 	}
 	if h, ok := c.Replay["hash"]; ok {
 		for _, api := range schemeAPIs {
